@@ -47,6 +47,7 @@ func init() {
 }
 
 func runC06(c *Ctx, r *Report) {
+	importFoundation(c, r, "C06", "callbacks")
 	importFoundation(c, r, "C06", "read-loop")
 	r.Rule("C06/always-fetches-prompt", "AcquirePriv reports success only after it fetched the device's prompt (a lost connection cannot be reported as success)", 1)
 	checkAcquireAlwaysFetchesPrompt(c, r, "C06/always-fetches-prompt")
